@@ -33,6 +33,11 @@ CHECKS["C02"] = ("model_checking",
  "Every path expression of the path-safe grammar up to 4 nodes (thorough 5) on 15 inputs (4 with aliased Go structure, all arrays with spare capacity) is checked for the path/getpath law; every path expression up to 3 nodes x {=, |=, +=, //=, del} x 13 update bodies (copy, embed, duplicate, replace, drop, multi-output, erroring, nested deleting updates) x 11 inputs and every ordered pair and triple of 15-18 overlapping paths (self, ancestor/descendant, sibling, slice-in-slice, index-vs-slice, fractional bounds, out-of-range) per family x 3 operators x 6 bodies is compared (a) with the reference model, whose operators are always-copy Go folds of setpath/getpath/delpaths with deletions resolved against the original, and (b) with the defining reduction written as jq text and run in-engine; jq-defined consumers are interpreted from builtin.jq; setpath non-interference for all incomparable path pairs; 14 computed sources x 9 contexts must raise an invalid-path error; every case checks the input (incl. spare capacity) is untouched and the result acyclic.",
  "Trusted: mc/refjq (RefGetpath/RefSetpath/RefDelpaths and the model's path tracking). Allocator address reuse after GC is not controllable and not explored.",
  "DESIGN.md §4 C02")
+CHECKS["C07"] = ("fault_enumeration",
+ "exhaustive enumeration of cancellation points (poll-counting context) and of cancel-between-calls histories",
+ "For ~85 finite and infinite programs x 3 inputs every cancellation point k = 0..N is enumerated, where k is the index of the VM's poll of ctx.Done() driven by a poll-counting context (no timers, fully deterministic; N = the run's own length + 2, or a horizon of 3000, thorough 12000, for infinite programs). Each case checks: values before the cancellation are exactly the prefix the uncancelled trace had produced by poll k, the Next that polled returns the context's error without executing another instruction, the iterator is exhausted afterwards and never polls again. Additionally cancellation between two Next calls after every output, the iterator lifecycle (false forever, no panic after an error, cancellation after exhaustion) over the corpus and an error grammar, and the entry points that must report problems as error values. A program that never reaches a poll is caught by a per-case watchdog and reported as a violation.",
+ "Trusted: the VM polls ctx.Done() once per instruction (that is what makes a poll index a cancellation point); steps that do not poll at all are only visible through the between-calls histories and the hang watchdog.",
+ "DESIGN.md §4 C07")
 NOT_YET = "check not built yet (work in progress in this session); see DESIGN.md for the planned exploration"
 
 def commits():
